@@ -277,3 +277,5 @@ def plan(tier):
         "shrink": "hypothesis",
         "budget_s": 150 if quick else 1500,
     }
+
+RULE += (' Boundary trees also include chains 40 / 120 / 300 levels deep. Sub-case seq: 2-8 frames through one decoder object, some of them undecodable (an invalid byte where the innermost node of a hand-built chain of generated depth should start, or the frame ends there): every valid frame before and after decodes to its tree.')
